@@ -1,0 +1,27 @@
+//go:build verif
+
+package types
+
+import sdk "github.com/cosmos/cosmos-sdk/types"
+
+// Verification hooks (build tag "verif" only). A harness may install these to number the atomic
+// units executed by block hooks, to replace a unit's cache context (fault injection) or to skip a unit.
+
+// VerifUnitHook is called with the cache context of every ApplyFuncIfNoError unit before it runs.
+var VerifUnitHook func(ctx sdk.Context) (sdk.Context, bool)
+
+// VerifUnitExit is called when such a unit returns (normally, with an error or by a recovered panic).
+var VerifUnitExit func()
+
+func verifEnterUnit(ctx sdk.Context) (sdk.Context, bool) {
+	if VerifUnitHook != nil {
+		return VerifUnitHook(ctx)
+	}
+	return ctx, false
+}
+
+func verifExitUnit() {
+	if VerifUnitExit != nil {
+		VerifUnitExit()
+	}
+}
